@@ -264,7 +264,7 @@ def classify(h, r):
         return "inconclusive", "CBMC %s" % er.get("exit_status")
     if pd.get("total_properties") is None:
         return "inconclusive", "no property details (%s)" % (er.get("exit_status") or pd.get("error"))
-    if pd.get("undetermined", 0) or pd.get("solver_error", 0) or r.get("undecided"):
+    if not r["failed"] and (pd.get("undetermined", 0) or pd.get("solver_error", 0) or r.get("undecided")):
         return "inconclusive", "undetermined/solver-error checks (memory or time limit hit inside CBMC)"
     if r["failed"]:
         descs = sorted({(c.get("description") or "") for c in r["failed"]})
@@ -289,7 +289,9 @@ def extract_playback_tests(log):
     tests = []
     for m in re.finditer(r"```\n(.*?)```", log, re.S):
         body = m.group(1)
-        if "kani::concrete_playback_run" in body and "Check for `cover`" not in body:
+        if "kani::concrete_playback_run" in body:
+            # keep cover witnesses too: Kani de-duplicates identical value vectors, so the failing
+            # trace may only be printed under a cover's heading
             tests.append(body)
     return tests
 
